@@ -26,6 +26,8 @@ Case(k) ==
       rt |-> (p.c \in ExchangeFormats \/ (r.ok /\ r.o = o)), rw |-> (p.c \in ExchangeFormats \/ (r.ok /\ FileW(p.c, r.o) = f)),
       ideal |-> (p.c \in ExchangeFormats \/ (ri.ok /\ ri.o = o)),
       rok |-> r.ok, ev |-> SetToSeq(r.ev), at |-> r.at, traits |-> SetToSeq(Traits(p.c, o)),
+      \* kinds of fields that the file holds: roles of its tokens (count, enum, index, int, val), "vecrow" = a line of values
+      kinds |-> SetToSeq(FieldKinds(p.c, o)),
       mdiff |-> IF p.c \notin ExchangeFormats /\ r.ok /\ r.o # o THEN SetToSeq(DiffFields(o, r.o)) ELSE <<>>]
 
 Init == n \in 1..Len(Picks) /\ ph = 0
